@@ -26,7 +26,11 @@ import (
 	govv1 "github.com/cosmos/cosmos-sdk/x/gov/types/v1"
 	"github.com/cosmos/gogoproto/proto"
 
+	"cosmossdk.io/math"
+
 	"github.com/bandprotocol/chain/v3/pkg/tss"
+	bandtsstypes "github.com/bandprotocol/chain/v3/x/bandtss/types"
+	tunneltypes "github.com/bandprotocol/chain/v3/x/tunnel/types"
 
 	"verif/harness/gen"
 	"verif/harness/pbt"
@@ -123,6 +127,7 @@ type txMeta struct {
 	vbFail   bool
 	gov      bool
 	pid      uint64
+	msg      sdk.Msg
 	fallback bool
 }
 
@@ -212,7 +217,10 @@ func (w *world) sign(signer *sim.Account, anteOK bool, msgs ...sdk.Msg) (bz []by
 		return nil, err
 	}
 	if anteOK {
-		signer.Seq++
+		// a transaction the node cannot decode (unregistered Any, malformed signer field ...) never reaches the ante handler
+		if _, derr := txCfg.TxDecoder()(out); derr == nil {
+			signer.Seq++
+		}
 	}
 	return out, nil
 }
@@ -231,7 +239,7 @@ func runAdv(c advCase) *pbt.Verdict {
 		v.Failf("harness", "malformed case")
 		return v
 	}
-	w := &world{c: c, v: v, privs: map[uint64]map[string]tss.Scalar{}, dkgs: map[uint64]map[string]*dkgMember{}, props: map[uint64]int{}}
+	w := &world{c: c, v: v, privs: map[uint64]map[string]tss.Scalar{}, dkgs: map[uint64]map[string]*dkgMember{}, props: map[uint64]int{}, propMsgs: map[uint64]sdk.Msg{}}
 	cfg := w.buildConfig()
 	ch, err := sim.New(cfg, 0)
 	if err != nil {
@@ -286,6 +294,11 @@ func runAdv(c advCase) *pbt.Verdict {
 					if desc == "" {
 						continue
 					}
+					if mt.gov && prev != nil && w.inAvoidedRegion(msg) {
+						msg = prev.(sdk.Msg)
+						v.Count("avoided_known_region", 1)
+						continue
+					}
 					if mt.gov && prev != nil && safeVB(msg) != nil && (mu.K/5)%8 != 0 {
 						// parameter values the module's own validation refuses are outside the domain (1 in 8 is sent anyway)
 						msg = prev.(sdk.Msg)
@@ -310,6 +323,7 @@ func runAdv(c advCase) *pbt.Verdict {
 					pid += w.propsInBlock
 					w.propsInBlock++
 					meta.pid = pid
+					meta.msg = msg
 					// gov runs ValidateBasic of the inner message when the proposal is submitted (in the msg server, after ante)
 					addTx(ch.Vals[0], true, meta, prop)
 					for _, val := range ch.Vals {
@@ -346,7 +360,10 @@ func runAdv(c advCase) *pbt.Verdict {
 				}
 				list = append(list, shortName(m.url)+"{"+strings.Join(m.descs, ";")+"}")
 			}
-			sig, what := classifyFailure(err, metas)
+			sig, what := w.classifyFailure(err)
+			if os.Getenv("VERIF_C02ADV_TRACE") != "" {
+				fmt.Printf("TRACE block %d: %v\n%s\n", bi, err, traceFinalize(ch, txs, dt))
+			}
 			v.Failf(sig, "history block %d (height %d, dt %ds) could not be finalized: %v; %s; messages of the block: %s", bi, ch.Height+1, blk.Dt, err, what, strings.Join(list, ", "))
 			return v
 		}
@@ -354,6 +371,12 @@ func runAdv(c advCase) *pbt.Verdict {
 		for i, tr := range res.Resp.TxResults {
 			m := metas[i]
 			if m.ti < 0 {
+				if tr.Code != 0 {
+					v.Count("gov_vote_failed", 1)
+					if os.Getenv("VERIF_C02ADV_DEBUG") != "" {
+						fmt.Printf("VOTE-FAIL %s\n", tr.Log)
+					}
+				}
 				continue
 			}
 			name := shortName(msgTypes[m.ti].url)
@@ -376,6 +399,7 @@ func runAdv(c advCase) *pbt.Verdict {
 			if m.gov {
 				if ok {
 					w.props[m.pid] = m.ti
+					w.propMsgs[m.pid] = m.msg
 				}
 				continue // the module message itself runs in gov's end blocker
 			}
@@ -406,6 +430,7 @@ func runAdv(c advCase) *pbt.Verdict {
 						}
 					}
 					delete(w.props, pid)
+					delete(w.propMsgs, pid)
 				}
 			}
 			if wk, ok := endBlockWork[e.Type]; ok {
@@ -443,6 +468,15 @@ var endBlockWork = map[string]string{
 	"complain_success": "tss-complain-upheld", "complain_failed": "tss-complain-rejected", "deactivate_tunnel": "tunnel-deactivated", "active_proposal": "gov-proposal-ended",
 }
 
+func sortedPids(m map[uint64]sdk.Msg) []uint64 {
+	ks := make([]uint64, 0, len(m))
+	for k := range m {
+		ks = append(ks, k)
+	}
+	sort.Slice(ks, func(i, j int) bool { return ks[i] < ks[j] })
+	return ks
+}
+
 func sortedBoolKeys(m map[string]bool) []string {
 	ks := make([]string, 0, len(m))
 	for k := range m {
@@ -452,11 +486,68 @@ func sortedBoolKeys(m map[string]bool) []string {
 	return ks
 }
 
-// classifyFailure gives every distinct root cause found so far its own signature so that the search can go on
-// behind it (see VERIF_C02ADV_AVOID); anything else is C02/finalize-error.
-func classifyFailure(err error, metas []*txMeta) (sig, what string) {
-	_ = metas
-	_ = err
+// Findings of this stage on the unchanged tree. Each distinct root cause has its own signature so that the search can
+// go on behind it: VERIF_C02ADV_AVOID=<signature,...> keeps the histories out of the corresponding region.
+const (
+	// bandtss FeePerSigner / tunnel BasePacketFee amounts near 2^256 (accepted by Params.Validate) overflow math.Int in
+	// GetSigningFee / HasEnoughFundToCreatePacket, which the tunnel end blocker calls outside its recovering cache context
+	sigFeeOverflow = "C02/tunnel-endblock-fee-overflow"
+)
+
+func maxIntBits(m any) int {
+	var ls []leaf
+	collectLeaves(reflect.ValueOf(m), "", &ls, 0)
+	mx := 0
+	for _, l := range ls {
+		if l.kind == "bigint" {
+			if i, ok := l.v.Interface().(math.Int); ok && !i.IsNil() && i.BigInt().BitLen() > mx {
+				mx = i.BigInt().BitLen()
+			}
+		}
+	}
+	return mx
+}
+
+// inAvoidedRegion: the (mutated) authority-only message would take the chain into the region of a reported finding.
+func (w *world) inAvoidedRegion(m sdk.Msg) bool {
+	if avoid[sigFeeOverflow] {
+		switch mm := m.(type) {
+		case *bandtsstypes.MsgUpdateParams:
+			if maxIntBits(&mm.Params) > 128 {
+				return true
+			}
+		case *tunneltypes.MsgUpdateParams:
+			if maxIntBits(&mm.Params) > 128 {
+				return true
+			}
+		}
+	}
+	return false
+}
+
+// classifyFailure attributes a block that could not be finalized to a known root cause, else C02/finalize-error.
+func (w *world) classifyFailure(err error) (sig, what string) {
+	ctx := w.ch.Ctx()
+	if strings.Contains(err.Error(), "integer overflow") {
+		bp := w.ch.App.BandtssKeeper.GetParams(ctx)
+		tp := w.ch.App.TunnelKeeper.GetParams(ctx)
+		if maxIntBits(&bp) > 200 || maxIntBits(&tp) > 200 {
+			return sigFeeOverflow, fmt.Sprintf("bandtss FeePerSigner=%s tunnel BasePacketFee=%s", bp.FeePerSigner, tp.BasePacketFee)
+		}
+		// or a parameter change executed by gov's end blocker in the very block that failed
+		for _, pid := range sortedPids(w.propMsgs) {
+			switch mm := w.propMsgs[pid].(type) {
+			case *bandtsstypes.MsgUpdateParams:
+				if maxIntBits(&mm.Params) > 200 {
+					return sigFeeOverflow, fmt.Sprintf("proposal %d sets bandtss FeePerSigner=%s", pid, mm.Params.FeePerSigner)
+				}
+			case *tunneltypes.MsgUpdateParams:
+				if maxIntBits(&mm.Params) > 200 {
+					return sigFeeOverflow, fmt.Sprintf("proposal %d sets tunnel BasePacketFee=%s MinDeposit=%s", pid, mm.Params.BasePacketFee, mm.Params.MinDeposit)
+				}
+			}
+		}
+	}
 	return "C02/finalize-error", "unclassified"
 }
 
